@@ -50,6 +50,8 @@ impl<L: Language, N: Analysis<L>> EGraph<L, N> {
         r: &AppliedId,
         #[allow(unused)] proof: ProvenEq,
     ) -> bool {
+        #[cfg(slotted_egraphs_verif)]
+        crate::verif::tick();
         // normalize inputs
         let pai_l = self.proven_find_applied_id(&l);
         let pai_r = self.proven_find_applied_id(&r);
@@ -81,12 +83,16 @@ impl<L: Language, N: Analysis<L>> EGraph<L, N> {
         let cap = &l.slots() & &r.slots();
 
         if l.slots() != cap {
+            #[cfg(slotted_egraphs_verif)]
+            crate::verif::probe("union_shrink_left");
             self.shrink_slots(&l, &cap, proof.clone());
             self.union_internal(&l, &r, proof);
             return true;
         }
 
         if r.slots() != cap {
+            #[cfg(slotted_egraphs_verif)]
+            crate::verif::probe("union_shrink_right");
             let flipped_proof = ghost!(self.prove_symmetry(proof.clone()));
             self.shrink_slots(&r, &cap, flipped_proof);
             self.union_internal(&l, &r, proof);
@@ -125,6 +131,8 @@ impl<L: Language, N: Analysis<L>> EGraph<L, N> {
             }
 
             grp.add(proven_perm);
+            #[cfg(slotted_egraphs_verif)]
+            crate::verif::probe("union_new_symmetry");
 
             self.touched_class(id, PendingType::Full);
 
@@ -172,6 +180,8 @@ impl<L: Language, N: Analysis<L>> EGraph<L, N> {
 
     // moves everything from `from` to `to`.
     fn move_to(&mut self, from: &AppliedId, to: &AppliedId, #[allow(unused)] proof: ProvenEq) {
+        #[cfg(slotted_egraphs_verif)]
+        crate::verif::probe("move_to");
         if CHECKS {
             assert_eq!(from.slots(), to.slots());
             #[cfg(feature = "explanations")]
@@ -283,6 +293,8 @@ impl<L: Language, N: Analysis<L>> EGraph<L, N> {
             .collect();
 
         if self.classes.get_mut(&to.id).unwrap().group.add_set(set) {
+            #[cfg(slotted_egraphs_verif)]
+            crate::verif::probe("move_to_transports_symmetry");
             self.touched_class(to.id, PendingType::Full);
         }
 
